@@ -189,10 +189,10 @@ def run(chk: Check):
         if i == 7:
             # a long history (hundreds of points after the first batch) in front of the history-driven samplers: whatever they do differently on large
             # training sets, they do it with the generators the calibrator seeded
-            cfg["lineup"] = [("HaltonSampler", 640, None), ("GaussianProcessSampler", 2, None), ("RandomForestSampler", 2, None), ("XGBoostSampler", 2, None), ("BestBatchSampler", 2, None)]
+            cfg["lineup"] = [("HaltonSampler", 640, None), ("GaussianProcessSampler", 3, None), ("RandomForestSampler", 2, None), ("GaussianProcessSampler", 4, None), ("XGBoostSampler", 2, None), ("BestBatchSampler", 2, None)]
             cfg["dims"], cfg["ensemble"], cfg["loss"], cfg["sched"] = 2, 1, "minkowski", "rr"
             cfg.pop("model", None); cfg.pop("agent_eps", None)
-            n = 5
+            n = 6
             chk.count("history_of_more_than_600_points_before_the_surrogates")
         # the process-wide generators (numpy's legacy global stream, Python's random module) are nobody's configuration: they differ between the two runs of a pair
         import random as _random
